@@ -223,7 +223,8 @@ def round_case(ctx: Ctx, rng, workers: int, parallel: bool = True, fail_all: boo
                          multiprocessing_on=parallel, n_processes=workers)
     ns.run_connection_attempts([list(p) for p in pairs])
     LAST_ROUND.clear()
-    LAST_ROUND.update(pairs=[sorted(p) for p in pairs], history=np.asarray(k.pairlist).reshape(-1, 2).tolist())
+    LAST_ROUND.update(pairs=[sorted(p) for p in pairs], history=np.asarray(k.pairlist).reshape(-1, 2).tolist(),
+                      merged=list(merged), want_merged=[t for t in toks if t != "x"])
     order = []
     for line in open(log).read().splitlines():
         a, b = line.split()
@@ -381,6 +382,13 @@ def predicates(ctx: Ctx) -> None:
             r = random.Random(s)
             merged, order, toks, digest = round_case(ctx, r, workers, fail_all=fail_all)
             results.append((workers, order, digest, toks))
+            # the records reach the merge in list order of their pairs, whatever order the workers finished in
+            want_merged = [t for t in toks if t != "x"]
+            if list(merged) != want_merged:
+                ctx.fail("parallel-merge-not-in-list-order", f"parallel round with outcomes {toks} ({workers} workers, completion "
+                         f"order {order}): the records were merged in the order {list(merged)}; list order is {want_merged}",
+                         {"round_seed": s, "workers": [workers], "fail_all": fail_all, "merge_order": True})
+                break
             # merging in list order records every pair of the batch in the attempt history, found something or not
             if LAST_ROUND["history"] != LAST_ROUND["pairs"]:
                 ctx.fail("parallel-round-history", f"parallel round over the pairs {LAST_ROUND['pairs']} with outcomes {toks} "
@@ -459,6 +467,9 @@ def replay(ctx: Ctx, data: dict) -> bool:
             ds.add(round_case(ctx, random.Random(data["round_seed"]), w, fail_all=data.get("fail_all", False))[3])
             if LAST_ROUND["history"] != LAST_ROUND["pairs"]:
                 print(f"  history {LAST_ROUND['history']} after the batch {LAST_ROUND['pairs']}")
+                ok = False
+            if data.get("merge_order") and list(LAST_ROUND.get("merged", [])) != LAST_ROUND.get("want_merged"):
+                print(f"  records merged in the order {LAST_ROUND.get('merged')}, list order is {LAST_ROUND.get('want_merged')}")
                 ok = False
         return len(ds) == 1 and ok
     predicates(ctx)
